@@ -84,6 +84,32 @@ CLAIMED["C08"] = dict(
     technique="Lean 4 inductive-invariant proof over an LTS + trace-acceptance correspondence under controlled schedules",
     design="DESIGN.md section 4, C08")
 
+CLAIMED["C02"] = dict(
+    text="12 Lean 4 theorems for every capacity >= 2 and unboundedly many participants: sequential refinement of all ten queue operations to an abstract deque (re-centring in both directions is the identity, abort exactly on a full queue, indices in bounds); a ~65-clause inductive invariant of the concurrent machine at shared-access granularity under sequential consistency (owner push with re-centring / pop / put / clear; thieves' take, wsapi take with decision callback, trypass, lock-free peek, cached wsapi peek) giving multiset no-loss / no-duplication, exactly-once, decline leaves the candidate available, owner fast path safe, progress (ghost branches unreachable); under x86-TSO (store-buffer machine with the source's fences) the no-loss/no-dup invariant is proved for owner push/pop (all three paths) against thieves' take only: C02_no_loss_no_dup_tso_partial. Tie: differential sequential harness on capacities 4/6/8/16; owner + thieves under a token-passing controller (seeded random + DFS with preemption bound) whose traces INCLUDING FENCE POSITIONS are accepted step by step by the SC model; tagged-element oracle; executable TSO search parameterised by the observed fences for missing-fence changes.",
+    note="PARTIAL under TSO: trypass, put, peek, the wsapi variants, the steal cache, re-centring and clear are not proved under TSO (full intended statement kept as a comment in Properties/C02.lean). Liveness ('terminates on any number of workers') is probabilistic in the victim choice and not proved; its safety core is the quiescent half of C02_exactly_once. Trusted: Lean kernel; x86-TSO store-buffer model; release store applied right after the unlock fence; steal cache modelled as its pointer word only; controlled runs are SC interleavings; whole-library exactly-once dispatch is additionally observed by the C01 programs (per-thread invocation counters).",
+    technique="Lean 4 refinement to an abstract deque with ghost linearization points, per-pc invariant lemmas (SC full, TSO partial) + trace-acceptance correspondence incl. fence positions + TSO model search",
+    design="DESIGN.md section 4, C02 and Appendix A")
+CLAIMED["C06"] = dict(
+    text="13 Lean 4 theorems over an LTS of myth_barrier_wait at shared-access granularity with the single-CAS sleep stack, any duplicate-free participant list (N >= 1), any number of rounds, all interleavings under the explicit WellUsed hypothesis (shown satisfiable and necessary): nobody returns from round k before all N arrived, exactly one SERIAL per round and it is the last arriver, all N-1 sleepers of the round pushed exactly once, a participant racing into round k+1 is never popped as a round-k sleeper (why resetting the count before the pops is safe), single popper hence no ABA on the CAS stack, N = 1, the excess-threads exit unreachable, stuck-freedom. Tie: barrier_prog (N 1..6, <= 5 rounds, racers, W 1..3) under the schedule controller, traces accepted by drv_barrier; per-round arrival counters / serial count / deadlock oracle on the implementation.",
+    note="Trusted: Lean kernel; controller (SC interleavings at point granularity; pop CAS installs the next pointer recorded at its read); 'every participant returns' = safety + stuck-freedom, that a runnable thread eventually runs is assumed (C01/C02).",
+    technique="Lean 4 inductive-invariant proof (44 clauses) over an LTS + trace-acceptance correspondence under controlled schedules",
+    design="DESIGN.md section 4, C06")
+CLAIMED["C07"] = dict(
+    text="13 Lean 4 theorems over an LTS of myth_join_counter_wait/dec using the real packed word, any N >= 0, unbounded threads, all interleavings, no usage hypothesis: the word's two fields count decrements and announced waiters exactly; no wait returns / nothing is woken before the N-th decrement; the N-th decrementer dequeues exactly the threads announced or asleep at its CAS and each is pushed once; a wait after N decrements returns at once; N = 0; single waker; a quiescent state after N decrements has no sleeper. Arithmetic for all n (calc_bits minimal width, mask identity, field independence, BitVec-64 corollary under the decidable Representable guard). Tie: jc_prog (waiters before/between/after and concurrent with the final decrement, N in {0,1,2,3,4,7,8}) under the controller with drv_jc trace acceptor; differential unit check of calc_bits/mask/dec/wait arithmetic against the real header.",
+    note="Trusted: Lean kernel; controller (SC interleavings); sleep queue atomic at its in-lock linearization point; Nat word with the 64-bit case under Representable (n < 2^62, waiters < 2^(63-b)); more than N decrements is the code's exit(1), modelled as such; liveness = safety + stuck-freedom.",
+    technique="Lean 4 inductive-invariant proof over an LTS + arithmetic lemmas + trace-acceptance correspondence + differential unit check",
+    design="DESIGN.md section 4, C07")
+CLAIMED["C18"] = dict(
+    text="12 Lean 4 theorems over all well-nested executions, time stamps, worker assignments, option settings and admissible contraction policies: every reported total (work, span, interval counts by kind, the five edge counts) is independent of the contraction policy and of collapse_max / uncollapse_min / collapse_max_count / node_count_target / prune_threshold; work = sum of interval lengths; counts equal the flat counts; bottom-up t_inf = max over intervals of est + duration under the recorder's own top-down est propagation; t_inf <= t_1; cur_node_count exact including the budget-splitting prune walk; .stat edge totals contraction-independent. 4 kernel-checked refutations of the pinned code (three genuine defects repaired). Tie: real profiler sources driven through a serial multi-worker simulator x 12 option settings; root info / .stat / est per interval equal to the model on the captured stamps; flat-interval oracle independent of the model.",
+    note="The longest-path-in-the-explicit-leaf-graph formulation (C18_span_is_longest_path) is NOT proved; the est-finish formulation is. Trusted: Lean kernel; causal rdtsc stamps as unbounded naturals; serial simulator (the recorder's lock-free list insertion and real concurrency are not exercised); PAPI / cpu ids not modelled.",
+    technique="Lean 4 structural induction over mutual tree types + differential execution against the profiler compiled from current sources",
+    design="DESIGN.md section 4, C18")
+CLAIMED["C19"] = dict(
+    text="7 Lean 4 theorems: for every DAG, wellFormed (offsets and edge endpoints in range, children contiguous, edges grouped by source with edges_begin/end a partition, in-degree certificate) implies that the chronological replay, for ANY dequeue order, readies/starts/ends every leaf exactly once, touches no inner node and ends with nothing running or ready; string interning (distinct names <-> distinct indices, all indices in the table); dump and shrink preserve root totals. PARTIAL: that every flatten / shrink output is wellFormed (C19_flatten_wf, C19_prune_wf) is proved only for the strings/size conjuncts - it is established per run by executing the verified checker on every dumped, re-read and converted DAG. Tie: model arrays compared field by field with the implementation's T/E/S; dump vs re-read identical by memcmp on the implementation (file I/O and mmap not modelled); replay counters equal.",
+    note="PARTIAL as stated. Trusted: Lean kernel; event heap abstracted to an arbitrary pick; conversion exercised through dr_read_dag / dr_copy_pi_dag / dr_gen_basic_stat / dr_gen_pi_dag (the body of dag2any with --shrink), dag2any's option parsing and sqlite/text writers are not run; byte-level file round trip by correspondence only.",
+    technique="Lean 4 counting invariant over an abstract event queue + verified executable checker + differential execution",
+    design="DESIGN.md section 4, C19")
+
 NA_REASON = "not yet claimed in this revision: model/theorems/correspondence for this property are still being built (see DESIGN.md section 8 build order); no other technique is substituted"
 
 
